@@ -3,6 +3,9 @@ L = "clematis/engine/stages/t3/legacy.py"
 D = "clematis/engine/stages/t3/dialogue.py"
 S = "clematis/engine/policy/sanitize.py"
 O = "clematis/engine/orchestrator/core.py"
+ZB = "clematis/engine/stages/t3/bundle.py"
+ZP = "clematis/engine/stages/t3/policy.py"
+ZO = "clematis/engine/orchestrator/core.py"
 CASES = [
     ("cap-truncation-dropped", "mutant", P, "    if len(ops) > caps_ops:\n        ops = ops[:caps_ops]\n\n    return Plan(version=\"t3-plan-v1\", reflection=False, ops=ops, request_retrieve=None)", "    return Plan(version=\"t3-plan-v1\", reflection=False, ops=ops, request_retrieve=None)", "C13.CAP"),
     ("cap-ignores-slice", "mutant", P, "    caps_ops = min(base_ops, slice_cap)\n    tokens = int(cfg_t3.get(\"tokens\", 256))\n", "    caps_ops = base_ops\n    tokens = int(cfg_t3.get(\"tokens\", 256))\n", "C13.CAP"),
@@ -30,7 +33,11 @@ CASES = [
     ("limit-retyped", "mutant", S, "        or (len(x) > PLAN_ITEM_MAX_LEN)\n", "        or (len(x) > 2000)\n", "C13.SCHEMA"),
     ("limit-on-stripped", "mutant", S, "        or (len(x) > PLAN_ITEM_MAX_LEN)\n", "        or (len(x.strip()) > PLAN_ITEM_MAX_LEN)\n", "C13.SCHEMA"),
     ("allowed-keys-extra", "mutant", S, "        if k not in (\"plan\", \"rationale\", \"reflection\"):\n", "        if k not in (\"plan\", \"rationale\", \"reflection\", \"notes\"):\n", "C13.SCHEMA"),
+    ("bundle-drops-zero-slice-cap", "mutant", ZB, "        if isinstance(caps, dict) and caps.get(\"t3_ops\") is not None:\n            slice_caps[\"t3_ops\"] = int(caps.get(\"t3_ops\"))\n", "        t3_cap = int(caps.get(\"t3_ops\") or 0) if isinstance(caps, dict) else 0\n        if t3_cap > 0:\n            slice_caps[\"t3_ops\"] = t3_cap\n", "C13.CAP"),
+    ("bundle-positive-cap-only", "mutant", ZB, "        if isinstance(caps, dict) and caps.get(\"t3_ops\") is not None:\n", "        if isinstance(caps, dict) and caps.get(\"t3_ops\") is not None and int(caps.get(\"t3_ops\")) > 0:\n", "C13.CAP"),
+    ("deliberate-zero-cap-or-base", "mutant", ZP, "    try:\n        slice_cap = int(bundle.get(\"slice_caps\", {}).get(\"t3_ops\", base_ops))\n    except Exception:\n        slice_cap = base_ops\n", "    slice_cap = int((bundle.get(\"slice_caps\") or {}).get(\"t3_ops\") or base_ops)\n", "C13.CAP"),
     # twins
+    ("deliberate-cap-is-none-form", "twin", ZP, "    try:\n        slice_cap = int(bundle.get(\"slice_caps\", {}).get(\"t3_ops\", base_ops))\n    except Exception:\n        slice_cap = base_ops\n", "    _sc = (bundle.get(\"slice_caps\", {}) or {}).get(\"t3_ops\")\n    try:\n        slice_cap = base_ops if _sc is None else int(_sc)\n    except Exception:\n        slice_cap = base_ops\n", None),
     ("cap-clamp-inline", "twin", P, "    caps_ops = min(base_ops, slice_cap)\n    tokens = int(cfg_t3.get(\"tokens\", 256))\n", "    caps_ops = min(base_ops, slice_cap)\n    tokens = int(cfg_t3.get(\"tokens\", 256))\n    _ = caps_ops\n", None),
     ("speak-return-tuple-var", "twin", D, "    return utter_capped, metrics\n", "    out_text = utter_capped\n    return utter_capped, metrics\n", None),
     ("limit-via-local", "twin", S, "    if len(plan) > PLAN_MAX_ITEMS:\n", "    n_items = len(plan)\n    if n_items > PLAN_MAX_ITEMS:\n", None),
